@@ -7,39 +7,33 @@
    Filer.ListDirectoryEntries, stream_list = Filer.StreamListDirectoryEntries,
    list_valid = Filer.doListValidEntries, paginate / paginate_stream = the two ways the
    servers follow "the last returned name".  spec_names = the matching live children in
-   name order.
+   name order.  The model's None = the call does not terminate; every theorem below
+   includes termination.
 
-   The full statement ([exact_at] for every well-formed directory and request) does NOT
-   hold for the code as it is: six refutations below, each reproduced on the real Filer.
-   The strongest true statement is proved under decidable triggers:
-     pat_trigger prefix pat     (static: pattern without wildcard / '?' before '*' / prefix AND pattern)
-     run_trigger s d request    (computed by the model: leveldb start below the prefix range,
-                                 generic-path re-query, refill restarted from "", no termination) *)
+   After the repairs (splitPattern; leveldb seek guard; prefixFilterEntries' lastFileName;
+   refills keep lastFileName) the full statement holds for every store, directory and
+   request, except when a prefix AND a name pattern are given together (the code documents
+   them as mutually exclusive): finding 0, decidable trigger [trig_both]. *)
 From Coq Require Import List NArith Bool String Ascii Arith.
-From SW Require Import model.Listing proof.ListingBase proof.ListingStore proof.ListingPattern
+From SW Require Import model.Listing proof.ListingBase proof.ListingStore proof.ListingScan proof.ListingPattern
                        proof.ListingProofs proof.ListingWitness.
 Import ListNotations.
 Local Open Scope string_scope.
 Local Open Scope list_scope.
 
 (* ---------- c19_exact ---------- *)
-(* partial: outside the triggers a page is exactly the first [limit] matches in name order,
-   hasMore tells whether more exist, and only expired children were removed from the directory *)
+(* partial (trigger: prefix and pattern together): the call terminates, the page is exactly
+   the first [limit] matches in name order, hasMore tells whether more exist, and only
+   expired children were removed from the directory *)
 Theorem c19_exact_partial : forall s d start incl limit prefix pat excl,
-  wf d -> pat_trigger prefix pat = false -> run_trigger s d start incl limit prefix pat excl = false ->
-  exact_at s d start incl limit prefix pat excl.
-Proof. exact exact_partial. Qed.
-Print Assumptions c19_exact_partial.
-
-Theorem c19_exact_partial_state : forall s d start incl limit prefix pat excl names more r,
-  wf d -> pat_trigger prefix pat = false ->
-  list_entries s d start incl limit prefix pat excl = Some (names, more, r) ->
-  r_flag r = false -> r_restart r = false ->
-  let M := spec_names d start incl prefix pat excl in
-  names = firstn limit M /\ more = Nat.ltb limit (List.length M) /\
-  wf (r_dir r) /\ filter elive (r_dir r) = filter elive d.
+  wf d -> trig_both prefix pat = false ->
+  exists names more r,
+    list_entries s d start incl limit prefix pat excl = Some (names, more, r) /\
+    names = firstn limit (spec_names d start incl prefix pat excl) /\
+    more = Nat.ltb limit (List.length (spec_names d start incl prefix pat excl)) /\
+    wf (r_dir r) /\ filter elive (r_dir r) = filter elive d.
 Proof. exact list_entries_exact. Qed.
-Print Assumptions c19_exact_partial_state.
+Print Assumptions c19_exact_partial.
 
 (* the matches are in strictly increasing name order: no duplicates *)
 Theorem c19_matches_nodup : forall d start incl prefix pat excl,
@@ -47,177 +41,122 @@ Theorem c19_matches_nodup : forall d start incl prefix pat excl,
 Proof. exact spec_names_nodup. Qed.
 Print Assumptions c19_matches_nodup.
 
-(* every store call, seen alone: leveldb rule and generic path return the first L candidates
-   and a lastFileName from which the rest follows, unless their trigger fires *)
-Theorem c19_store_scan : forall s d start incl L p w,
-  wf d -> wrapper_list s d start incl L p = Some w -> w_flag w = false -> scan_ok d start incl L p w.
+(* full: every store call (leveldb rule and generic path) terminates, hands the first L
+   candidates to the callback and returns a lastFileName from which the rest follows *)
+Theorem c19_store_scan : forall s d start incl L p, wf d ->
+  exists w, wrapper_list s d start incl L p = Some w /\ scan_ok d start incl L p w.
 Proof. exact wrapper_list_spec. Qed.
 Print Assumptions c19_store_scan.
 
-(* outside the static triggers the implementation's per-name test is the requested one *)
+(* full: StreamListDirectoryEntries terminates and emits the first [limit] entries of the
+   selection the implementation computes (for every prefix/pattern combination) *)
+Theorem c19_stream : forall s d start incl limit prefix pat excl, wf d ->
+  exists r, stream_list s d start incl limit prefix pat excl = Some r /\
+    r_names r = map ename (firstn limit (impl_sel start incl prefix pat excl d)) /\
+    wf (r_dir r) /\ filter elive (r_dir r) = filter elive d.
+Proof. exact stream_list_spec. Qed.
+Print Assumptions c19_stream.
+
+(* ... and unless prefix and pattern are given together that selection is the requested one *)
 Theorem c19_pattern_split : forall prefix pat excl n,
-  pat_trigger prefix pat = false ->
+  trig_both prefix pat = false ->
   String.prefix (eff_prefix prefix pat) n && negb (missed (eff_prefix prefix pat) (snd (split_pattern pat)) excl n) =
   spec_match prefix pat excl n.
 Proof. exact match_agrees. Qed.
 Print Assumptions c19_pattern_split.
 
-(* refuted: the full statement fails inside each trigger set (witnesses confirmed on the real Filer) *)
-Theorem c19_exact_refuted_nowild :
-  let d := live_dir ["a"; "ab"; "b"] in
-  wf d /\ trig_nowild "ab" = true /\ run_trigger Lvl d "" false 10 "" "ab" "" = false /\
-  list_entries Lvl d "" false 10 "" "ab" "" <> None /\
-  ~ exact_at Lvl d "" false 10 "" "ab" "".
-Proof. exact refuted_nowild. Qed.
-Print Assumptions c19_exact_refuted_nowild.
-
-Theorem c19_exact_refuted_qprefix :
-  let d := live_dir ["ab"; "abc"; "bb"] in
-  wf d /\ trig_qprefix "?b*" = true /\ trig_nowild "?b*" = false /\
-  run_trigger Lvl d "" false 10 "" "?b*" "" = false /\
-  spec_names d "" false "" "?b*" "" = ["ab"; "abc"; "bb"] /\
-  ~ exact_at Lvl d "" false 10 "" "?b*" "".
-Proof. exact refuted_qprefix. Qed.
-Print Assumptions c19_exact_refuted_qprefix.
-
-Theorem c19_exact_refuted_start_below_prefix :
-  let d := live_dir ["a"; "b"] in
-  wf d /\ pat_trigger "b" "" = false /\ lvl_below d "a" "b" = true /\
-  spec_names d "a" false "b" "" "" = ["b"] /\
-  ~ exact_at Lvl d "a" false 10 "b" "" "" /\
-  exact_at Gen d "a" false 10 "b" "" "".
-Proof. exact refuted_start_below_prefix. Qed.
-Print Assumptions c19_exact_refuted_start_below_prefix.
-
-Theorem c19_exact_refuted_generic_hang :
-  let d := live_dir ["a"; "b"; "c"; "d"] in
-  wf d /\ pat_trigger "d" "" = false /\
-  list_entries Gen d "" false 0 "d" "" "" = None /\
-  ~ exact_at Gen d "" false 0 "d" "" "" /\
-  exact_at Lvl d "" false 0 "d" "" "".
-Proof. exact refuted_generic_hang. Qed.
-Print Assumptions c19_exact_refuted_generic_hang.
-
-(* that None is a divergence of prefixFilterEntries' loop for EVERY amount of fuel *)
-Theorem c19_generic_hang_diverges :
-  let d := live_dir ["a"; "b"; "c"; "d"] in
-  forall fuel, pf_loop fuel d 1 "d" (last_name (mem_list d "" false 1)) 0 (mem_list d "" false 1) [] false = None.
-Proof. exact generic_hang_diverges. Qed.
-Print Assumptions c19_generic_hang_diverges.
-
-Theorem c19_generic_requery_stuck : forall fuel d L p last count batch acc rq,
-  Nat.ltb count L = true -> batch <> [] ->
-  filter (fun e => String.prefix p (ename e)) batch = [] ->
-  mem_list d last false L = batch ->
-  pf_loop fuel d L p last count batch acc rq = None.
-Proof. exact pf_loop_stuck. Qed.
-Print Assumptions c19_generic_requery_stuck.
-
-Theorem c19_exact_refuted_generic_dup :
-  let d := [("a", false); ("b", true); ("b0", true); ("ba", false); ("bb", false)] in
-  wf d /\ pat_trigger "b" "" = false /\
-  (exists more r, list_entries Gen d "" false 3 "b" "" "" = Some (["ba"; "bb"; "bb"], more, r) /\ r_flag r = true) /\
-  spec_names d "" false "b" "" "" = ["ba"; "bb"] /\
-  ~ exact_at Gen d "" false 3 "b" "" "".
-Proof. exact refuted_generic_dup. Qed.
-Print Assumptions c19_exact_refuted_generic_dup.
-
-Theorem c19_exact_refuted_restart :
-  let d := [("a", false); ("b", false); ("c", true)] in
-  wf d /\ pat_trigger "" "*a" = false /\
-  (exists more r, list_entries Lvl d "" false 2 "" "*a" "" = Some (["a"; "a"], more, r) /\
-                  r_flag r = false /\ r_restart r = true) /\
-  spec_names d "" false "" "*a" "" = ["a"] /\
-  ~ exact_at Lvl d "" false 2 "" "*a" "" /\ ~ exact_at Gen d "" false 2 "" "*a" "".
-Proof. exact refuted_restart. Qed.
-Print Assumptions c19_exact_refuted_restart.
-
+(* refuted inside the trigger (witnesses confirmed on the real Filer, all stores) *)
 Theorem c19_exact_refuted_prefix_and_pattern :
   let d := live_dir ["a"; "ab"; "b"] in
-  wf d /\ trig_both "b" "a*" = true /\ trig_nowild "a*" = false /\ trig_qprefix "a*" = false /\
-  run_trigger Lvl d "" false 10 "b" "a*" "" = false /\
+  wf d /\ trig_both "b" "a*" = true /\
+  (exists r, list_entries Lvl d "" false 10 "b" "a*" "" = Some (["a"; "ab"], false, r)) /\
+  (exists r, list_entries Gen d "" false 10 "b" "a*" "" = Some (["a"; "ab"], false, r)) /\
   spec_names d "" false "b" "a*" "" = [] /\
-  ~ exact_at Lvl d "" false 10 "b" "a*" "".
+  ~ exact_at Lvl d "" false 10 "b" "a*" "" /\ ~ exact_at Gen d "" false 10 "b" "a*" "".
 Proof. exact refuted_prefix_and_pattern. Qed.
 Print Assumptions c19_exact_refuted_prefix_and_pattern.
 
+Theorem c19_exact_refuted_prefix_and_pattern_rest :
+  let d := live_dir ["a"; "ab"; "b"] in
+  wf d /\ trig_both "a" "?b" = true /\
+  (exists r, list_entries Lvl d "" false 10 "a" "?b" "" = Some ([], false, r)) /\
+  spec_names d "" false "a" "?b" "" = ["ab"] /\
+  ~ exact_at Lvl d "" false 10 "a" "?b" "".
+Proof. exact refuted_prefix_and_pattern_rest. Qed.
+Print Assumptions c19_exact_refuted_prefix_and_pattern_rest.
+
 (* ---------- c19_paginate ---------- *)
-(* partial: following the last returned entry's name (exclusive) while hasMore enumerates the
-   matches exactly once and in order, whatever the number of pages and the expired children
-   deleted on the way (page size >= 1; no trigger fired in any page) *)
-Theorem c19_paginate_partial : forall fuel s d start incl limit prefix pat excl pages,
-  wf d -> pat_trigger prefix pat = false -> 0 < limit ->
-  paginate fuel s d start incl limit prefix pat excl = Some (pages, false, false) ->
-  List.concat pages = spec_names d start incl prefix pat excl.
+(* following the last returned entry's name (exclusive) while hasMore terminates and
+   enumerates the matches exactly once and in order, whatever the number of pages and the
+   expired children deleted on the way (page size >= 1; fuel > number of matches) *)
+Theorem c19_paginate : forall fuel s d start incl limit prefix pat excl,
+  wf d -> trig_both prefix pat = false -> 0 < limit ->
+  List.length (spec_names d start incl prefix pat excl) < fuel ->
+  exists pages, paginate fuel s d start incl limit prefix pat excl = Some pages /\
+                List.concat pages = spec_names d start incl prefix pat excl /\
+                Forall (fun pg => List.length pg <= limit) pages.
 Proof. exact paginate_exact. Qed.
-Print Assumptions c19_paginate_partial.
+Print Assumptions c19_paginate.
 
-(* the same for the gRPC server's loop, which follows StreamListDirectoryEntries' lastFileName *)
-Theorem c19_paginate_stream_partial : forall fuel s d start incl limit prefix pages,
-  wf d -> 0 < limit ->
-  paginate_stream fuel s d start incl limit prefix = Some (pages, false, false) ->
-  List.concat pages = spec_names d start incl prefix "" "".
+(* full: the same for the gRPC server's loop, which follows StreamListDirectoryEntries' lastFileName *)
+Theorem c19_paginate_stream : forall fuel s d start incl limit prefix,
+  wf d -> 0 < limit -> List.length (spec_names d start incl prefix "" "") < fuel ->
+  exists pages, paginate_stream fuel s d start incl limit prefix = Some pages /\
+                List.concat pages = spec_names d start incl prefix "" "" /\
+                Forall (fun pg => List.length pg <= limit) pages.
 Proof. exact paginate_stream_exact. Qed.
-Print Assumptions c19_paginate_stream_partial.
-
-Theorem c19_paginate_refuted :
-  let d := [("a", false); ("b", false); ("c", true)] in
-  wf d /\ pat_trigger "" "*a" = false /\
-  paginate 10 Lvl d "" false 2 "" "*a" "" = Some ([["a"; "a"]], false, true) /\
-  spec_names d "" false "" "*a" "" = ["a"].
-Proof. exact refuted_paginate. Qed.
-Print Assumptions c19_paginate_refuted.
-
-Theorem c19_paginate_stream_refuted :
-  let d := [("a", false); ("b", true)] in
-  wf d /\
-  paginate_stream 10 Lvl d "" false 3 "" = Some ([["a"]; ["a"]], false, true) /\
-  paginate_stream 10 Gen d "" false 3 "" = Some ([["a"]; ["a"]], false, true) /\
-  spec_names d "" false "" "" "" = ["a"].
-Proof. exact refuted_paginate_stream. Qed.
-Print Assumptions c19_paginate_stream_refuted.
+Print Assumptions c19_paginate_stream.
 
 (* ---------- c19_expired_refill ---------- *)
-(* doListValidEntries: the page of valid entries is the first [limit] LIVE candidates, however
-   many expired ones are interleaved; exactly expired children disappear from the directory *)
-Theorem c19_expired_refill : forall s d start incl limit p r,
-  wf d -> list_valid s d start incl limit p = Some r -> r_flag r = false ->
-  r_names r = firstn limit (map ename (filter elive (cand start incl p d))) /\
-  filter elive (r_dir r) = filter elive d /\
-  (forall e, In e d -> In e (r_dir r) \/ eexp e = true) /\
-  (forall e, In e (r_dir r) -> In e d).
+(* full: doListValidEntries terminates; the page of valid entries is the first [limit] LIVE
+   candidates, however many expired ones are interleaved; exactly expired children
+   disappear from the directory *)
+Theorem c19_expired_refill : forall s d start incl limit p, wf d ->
+  exists r, list_valid s d start incl limit p = Some r /\
+    r_names r = firstn limit (map ename (filter elive (cand start incl p d))) /\
+    filter elive (r_dir r) = filter elive d /\
+    (forall e, In e d -> In e (r_dir r) \/ eexp e = true) /\
+    (forall e, In e (r_dir r) -> In e d).
 Proof. exact list_valid_refill. Qed.
 Print Assumptions c19_expired_refill.
-
-(* full on the leveldb stores when listing from the beginning: no trigger can fire *)
-Theorem c19_expired_refill_leveldb : forall d incl limit p r,
-  wf d -> list_valid Lvl d "" incl limit p = Some r -> r_flag r = false.
-Proof. exact lvl_list_valid_flag. Qed.
-Print Assumptions c19_expired_refill_leveldb.
 
 (* ---------- the executable well-formedness test used by the check implies wf ---------- *)
 Theorem c19_wfb_sound : forall d, wfb d = true -> wf d.
 Proof. exact wfb_wf. Qed.
 Print Assumptions c19_wfb_sound.
 
-(* ---------- non-vacuity ---------- *)
+(* ---------- the former witnesses (repaired) and non-vacuity ---------- *)
+Example c19_repaired_witnesses :
+  (exists r, list_entries Lvl (live_dir ["a"; "ab"; "b"]) "" false 10 "" "ab" "" = Some (["ab"], false, r)) /\
+  (exists r, list_entries Lvl (live_dir ["ab"; "abc"; "bb"]) "" false 10 "" "?b*" "" = Some (["ab"; "abc"; "bb"], false, r)) /\
+  (exists r, list_entries Lvl (live_dir ["a"; "b"]) "a" false 10 "b" "" "" = Some (["b"], false, r)) /\
+  (exists r, list_entries Gen (live_dir ["a"; "b"; "c"; "d"]) "" false 0 "d" "" "" = Some ([], true, r)) /\
+  (exists r, list_entries Gen [("a", false); ("b", true); ("b0", true); ("ba", false); ("bb", false)] "" false 3 "b" "" ""
+             = Some (["ba"; "bb"], false, r)) /\
+  (exists r, list_entries Lvl [("a", false); ("b", false); ("c", true)] "" false 2 "" "*a" "" = Some (["a"], false, r)) /\
+  paginate_stream 10 Lvl [("a", false); ("b", true)] "" false 3 "" = Some [["a"]].
+Proof. exact repaired_witnesses. Qed.
+
 Example c19_example_exact :
   wf ex_dir /\
-  pat_trigger "" "a*" = false /\ run_trigger Lvl ex_dir "a" false 1 "" "a*" "" = false /\
-  (exists r, list_entries Lvl ex_dir "a" false 1 "" "a*" "" = Some (["ab"], false, r) /\
+  trig_both "" "a*" = false /\
+  (exists r, list_entries Lvl ex_dir "a" false 1 "" "a*" "*c" = Some (["ab"], false, r) /\
              map ename (r_dir r) = ["a"; "ab"; "b"; "b0"; "ba"; "c"]) /\
-  pat_trigger "b" "" = false /\ run_trigger Lvl ex_dir "" false 2 "b" "" "" = false /\
-  (exists r, list_entries Lvl ex_dir "" false 2 "b" "" "" = Some (["b"; "ba"], false, r)).
+  (exists r, list_entries Gen ex_dir "a" false 1 "" "a*" "*c" = Some (["ab"], false, r) /\
+             map ename (r_dir r) = ["a"; "ab"; "b"; "b0"; "ba"; "c"]) /\
+  (exists r, list_entries Lvl ex_dir "" false 2 "b" "" "" = Some (["b"; "ba"], false, r)) /\
+  (exists r, list_entries Gen ex_dir "" false 1 "b" "" "" = Some (["b"], true, r)).
 Proof. exact exact_example. Qed.
 
 Example c19_example_paginate :
-  paginate 10 Lvl ex_dir "" false 2 "" "" "a*" = Some ([["b"; "ba"]; ["c"]], false, false) /\
-  paginate 10 Gen ex_dir "" false 2 "" "" "a*" = Some ([["b"; "ba"]; ["c"]], false, false) /\
-  paginate_stream 10 Lvl ex_dir "" false 2 "" = Some ([["a"; "ab"]; ["b"; "ba"]; ["c"]], false, false) /\
+  paginate 10 Lvl ex_dir "" false 2 "" "" "a*" = Some [["b"; "ba"]; ["c"]] /\
+  paginate 10 Gen ex_dir "" false 2 "" "" "a*" = Some [["b"; "ba"]; ["c"]] /\
+  paginate_stream 10 Lvl ex_dir "" false 2 "" = Some [["a"; "ab"]; ["b"; "ba"]; ["c"]] /\
+  paginate_stream 10 Gen ex_dir "" false 2 "a" = Some [["a"; "ab"]] /\
   spec_names ex_dir "" false "" "" "a*" = ["b"; "ba"; "c"].
 Proof. exact paginate_example. Qed.
 
 Example c19_example_refill :
-  exists r, list_valid Lvl ex_dir "" true 3 "a" = Some r /\ r_flag r = false /\
+  exists r, list_valid Lvl ex_dir "" true 3 "a" = Some r /\
             r_names r = ["a"; "ab"] /\ map ename (r_dir r) = ["a"; "ab"; "b"; "b0"; "ba"; "c"].
 Proof. exact refill_example. Qed.
